@@ -87,13 +87,20 @@ def solveOp : P String := do
       let failAt ← nat
       pure (some (M, failAt))
     else pure none)
+  let fpre : Option (FeatPre × Rat) ← (do
+    if pk = "jac" then pure (some (FeatPre.jac, ← rat))
+    else if pk = "sor" then pure (some (FeatPre.sor, ← rat))
+    else if pk = "ssor" then pure (some (FeatPre.ssor, ← rat))
+    else pure none)
   let tolRel ← rat; let tolAbs ← rat; let tolAbsLow ← rat
   let divRel ← rat; let divAbs ← rat; let stagRate ← rat
   let minIter ← nat; let maxIter ← nat; let minStag ← nat
   let skip ← boolP
   let omega ← rat
   let c := mkCfg tolRel tolAbs tolAbsLow divRel divAbs stagRate minIter maxIter minStag skip false 1
-  let S := ratSys A mask pre
+  let S := match fpre with
+    | some (k, w) => ratSysF A mask k w
+    | none => ratSys A mask pre
   let ns ← nat
   let mut solves : List (Bool × RVec n × RVec n) := []
   for _ in List.range ns do
@@ -104,7 +111,7 @@ def solveOp : P String := do
     solves := solves ++ [(decide (mode = "a"), x0, b)]
   let k : Option Kind := match kind with
     | "pcg" => some .pcg | "rich" => some .rich | "pcr" => some .pcr | "pmr" => some .pmr
-    | "pcgnr" => some .pcgnr | "bicgstab" => some .bicgstab | _ => none
+    | "pcgnr" => some .pcgnr | "bicgstab" => some .bicgstab | "cheb" => some .cheb | _ => none
   match k with
   | none => throw s!"unknown solver {kind}"
   | some k =>
